@@ -44,7 +44,10 @@ def gen_program(seed, idx, tier):
         g.partial = True
     g.on_reset = rs.below(4) == 0
     g.push = rs.below(3) == 0
-    return g.program()
+    prog = g.program()
+    if rs.below(4) == 0:
+        prog["tap"] = rs.choice(["q", "r"] + (["nr"] if "nr" in g.targets else []))
+    return prog
 
 
 class Runner:
